@@ -45,6 +45,9 @@ CHECKS = {
  "C18": dict(cat="model_checking", design="3/C18", technique="TLA+ model of the strength combination rules and Zener-drag constraint (Strength.tla) checked exhaustively by TLC; real StrengthModel/GrainGrowthModel bound by TLC-evaluated exact results; coupled runs judged by the Equiv.tla acceptor",
              text="Non-negativity, the Taylor-factor-times-minimum rule and total >= parts are invariants over all branch-value vectors incl. negative/NaN/inf; drag never reverses/accelerates and freezes when strong over all integer growth x drag values; the real classes reproduce the exact results with injected branch values, the real formulas are classified on a radius x spacing lattice incl. zero and sub-core radii, and coupled runs must keep the strength history at n+1 entries, the grain clock equal to the host clock and the grain volume at 1 after every host step over several solve calls.",
              note="exponent-1 superposition in the exact part; edge/screw reductions and real-valued monotonicity not decided (partial claim, DESIGN 3/C18)"),
+ "C20": dict(cat="model_checking", design="3/C20", technique="TLA+ model of surrogate delegation (Surrogate.tla, TLC over all train/query/reload histories) with Surrogate_Trace.tla validating real BinarySurrogate histories over a call-recording backend; save/load pairs judged by the Equiv.tla acceptor",
+             text="DelegatesByName and TrainedIsLocal are invariants over every history; each executed history must show, per query, exactly one call of the same-named backend method with the same arguments and returned value when untrained, no backend call and reproduction of the training data when trained, and identical predictions after toJson/fromJson. Saved precipitation/diffusion models (save points after 1-3 solve calls, recording on/off, grids, iterators) must equal their reload into a fresh model item by item, and re-saving must be idempotent.",
+             note="scripted binary backend; multicomponent curvature surrogate not covered; HomogenizationModel persistence shares DiffusionModel.toDict"),
 }
 
 NOT_APPLICABLE = {
